@@ -17,8 +17,12 @@ from mdpax.utils.batch_processing import BatchProcessor  # noqa: E402
 WIDTHS = [((), 1), ((2,), 2), ((2, 3), 6)]
 
 
-def observe(n, maxb, d):
-    bp = BatchProcessor(n_states=n, state_dim=1, max_batch_size=maxb, pmap_device_count=d)
+def observe(n, maxb, d, dtype=None):
+    dd = d
+    if d is not None and dtype:
+        # the requested device count as an integer-valued numpy / jax scalar instead of a Python int
+        dd = {"np64": np.int64, "np32": np.int32, "jnp32": jnp.int32}[dtype](d)
+    bp = BatchProcessor(n_states=n, state_dim=1, max_batch_size=maxb, pmap_device_count=dd)
     states = jnp.arange(1, n + 1, dtype=jnp.int32).reshape(n, 1)
     batched = bp.prepare_batches(states)
     shape = tuple(int(x) for x in batched.shape)
@@ -52,9 +56,10 @@ def observe(n, maxb, d):
 def main():
     req = json.load(sys.stdin)
     out = []
-    for n, maxb, d in req["points"]:
+    for pt in req["points"]:
+        n, maxb, d = pt[:3]
         try:
-            out.append(observe(n, maxb, d))
+            out.append(observe(n, maxb, d, pt[3] if len(pt) > 3 else None))
         except Exception as ex:  # an exception is an observation too (layout impossible)
             out.append({"n": n, "maxb": maxb, "d": d or 0, "nd": 0, "nb": 0, "bs": 0, "pad": -1,
                         "shape": [], "flat": [], "flatf": [], "un": [[-1], [-1], [-1]], "width": [1, 2, 6],
